@@ -143,11 +143,20 @@ def dagStep (order : List Int) (value : Int) (es : List Entry) : List Entry :=
 def dagLoop (order : List Int) (values : List Int) (es : List Entry) : List Entry :=
   values.foldl (fun es v => dagStep order v es) es
 
-/-- `np.unique` as a set of values (the order of the loop is irrelevant: `getDag_exact`) -/
+/-- `np.unique` as a set of values (the order of the loop is irrelevant: `getDag_loop_any_values`) -/
 def unique (l : List Int) : List Int := l.eraseDups
+
+/-- the one-pass mask of `get_dag` (current code): `dag.data[(order[dag.row] < 0) | (order[dag.col] <= order[dag.row])] = 0` -/
+def maskE (order : List Int) (e : Entry) : Entry :=
+  if decide (order.getD e.row 0 < 0) || decide (order.getD e.col 0 ≤ order.getD e.row 0) then { e with keep := false } else e
 
 /-- `get_dag(adjacency, order=order)`: the surviving entries (after `eliminate_zeros`). -/
 def getDagEntries (es : List Entry) (order : List Int) : List Entry :=
+  (es.map (maskE order)).filter (·.keep)
+
+/-- the same function as it was written at the pinned commit: a loop over `np.unique(order)` with one mask per value
+    (replaced by the one-pass mask in /repo 25e6718d; `C10.getDag_onepass_eq_loop` relates the two) -/
+def getDagEntriesLoop (es : List Entry) (order : List Int) : List Entry :=
   (dagLoop order (unique order) es).filter (·.keep)
 
 /-- all stored non-zero entries of an `n × n` edge predicate, row-major (`astype(bool).tocoo()`) -/
